@@ -596,12 +596,16 @@ XIncludeUtils::doXIncludeTEXTFileDOM(const XMLCh *href,
     XMLSize_t nRead, nOffset=0;
     XMLBuffer repository;
     while((nRead=stream->readBytes(buffer+nOffset, maxToRead-nOffset))>0){
+        // the buffer holds the bytes left over from the previous round followed by the new ones
+        const XMLSize_t nAvail=nOffset+nRead;
         XMLSize_t bytesEaten=0;
-        XMLSize_t nCount = transcoder->transcodeFrom(buffer, nRead, xmlChars, maxToRead*2, bytesEaten, charSizes);
+        XMLSize_t nCount = transcoder->transcodeFrom(buffer, nAvail, xmlChars, maxToRead*2, bytesEaten, charSizes);
         repository.append(xmlChars, nCount);
-        if(bytesEaten<nRead) {
-            nOffset=nRead-bytesEaten;
-            memmove(buffer, buffer+bytesEaten, nRead-bytesEaten);
+        nOffset=nAvail-bytesEaten;
+        if(nOffset>0) {
+            if(bytesEaten==0 && nAvail==maxToRead)
+                break;  // a full buffer of which nothing can be decoded: avoid spinning
+            memmove(buffer, buffer+bytesEaten, nOffset);
         }
     }
     return parsedDocument->createTextNode(repository.getRawBuffer());
